@@ -97,7 +97,7 @@ def guarded(f):
     """run f() under a CPU-time watchdog; returns ('ok', value) | ('hang', None) | ('exc', name)"""
     global _hangs
     if _hangs >= 2:  # hanging is established on this tree: do not burn the budget
-        return _run_limited(f, 0.03)
+        return _run_limited(f, 0.02)
     r = _run_limited(f, TIME_LIMIT)
     if r[0] == "hang":
         r = _run_limited(f, CONFIRM_LIMIT)
@@ -266,10 +266,14 @@ def impl_lines(case):
     out = []
     with done_ctx(case["done"]):
         split = build(case)
+        hung = False
         for a in case["avails"]:
-            out.append(enc_res(guarded(lambda: real_divide(split, case, a))))
+            # after one hang in this case the remaining lines are not worth a time-out each
+            r = ("hang", None) if hung else guarded(lambda: real_divide(split, case, a))
+            hung = hung or r[0] == "hang"
+            out.append(enc_res(r))
         if case.get("wp"):
-            r, vis = draw(split, case)
+            r, vis = (("hang", None), None) if hung else draw(split, case)
             if r[0] != "ok":
                 out.append(enc_res(r))
             elif case["dir"] == "v" and not split.children:
@@ -421,6 +425,8 @@ def oracle(case):
                 dims = []
             res = guarded(lambda: real_divide(split, case, a))
             v += check_divide(name, dims, a, bool(case["done"]) and case["dir"] == "h", res)
+            if res[0] == "hang":
+                return v
         if case.get("wp"):
             r, vis = draw(split, case)
             if r[0] == "hang":
